@@ -1,9 +1,108 @@
-/- C15 — bracket data.  (first layer) -/
+/- C15 — paired-bracket data complete and consistent: the 128 code points of the crate's pairs
+   table are distinct, so the first-match scan is an any-match lookup; the lookup equals the frozen
+   Unicode 16.0 BidiBrackets reference on every code point; both members of a pair share a key,
+   distinct pairs have distinct keys except the canonically equivalent U+2329/U+232A ~ U+3008/U+3009;
+   every bracket has Bidi_Class ON. -/
 import UBidi.Model.CharData
 import UBidi.Ref.Ucd16
+import UBidi.Lemmas.C15
+import UBidi.Props.C14
 namespace UBidi.Props.C15
 open UBidi
 
 theorem count : Gen.pairsTable.length = 64 ∧ Ref.brackets16.length = 128 := by decide +kernel
+
+/-- the 128 code points of the pairs table are pairwise distinct (proof over the whole table) -/
+theorem C15_distinct : (Gen.pairsTable.flatMap (fun p => [p.1, p.2.1])).Nodup := by decide +kernel
+
+/-- first-match = any-match: general lemma for a table with distinct code points -/
+theorem C15_scan (t : List (Nat × Nat × Option Nat)) (h : (t.flatMap (fun p => [p.1, p.2.1])).Nodup)
+    (p : Nat × Nat × Option Nat) (hp : p ∈ t) :
+    bracketIn t p.1 = some { opening := p.2.2.getD p.1, isOpen := true } ∧
+    bracketIn t p.2.1 = some { opening := p.2.2.getD p.1, isOpen := false } :=
+  Lemmas.C15.bracketIn_scan t h p hp
+
+/-- non-vacuity (test on literals): the crate's table meets the hypothesis; a row from its middle -/
+example : bracket 0x2329 = some { opening := 0x3008, isOpen := true } ∧
+    bracket 0x232A = some { opening := 0x3008, isOpen := false } :=
+  C15_scan Gen.pairsTable C15_distinct (0x2329, 0x232A, some 0x3008) (by decide +kernel)
+
+theorem C15_none (t : List (Nat × Nat × Option Nat)) (c : Nat) (h : ∀ p ∈ t, p.1 ≠ c ∧ p.2.1 ≠ c) :
+    bracketIn t c = none :=
+  Lemmas.C15.bracketIn_none t c h
+
+/-- non-vacuity (test on literals) -/
+example : bracketIn [(0x28, 0x29, none), (0x5B, 0x5D, none)] 0x41 = none :=
+  C15_none _ 0x41 (by decide)
+
+/-- Bool checker: on every reference entry `b`, the crate's lookup of `b`'s code point returns
+    exactly `b`'s data, and the reference's own first-match lookup of that code point returns `b`
+    (the reference has no duplicate code point). -/
+def refCoveredB (ref : List (Nat × Bool × Nat)) : Bool :=
+  ref.all (fun b =>
+    decide (bracket b.1 = some { opening := b.2.2, isOpen := b.2.1 }) &&
+    decide (ref.find? (fun x => x.1 == b.1) = some b))
+
+/-- Bool checker: every code point of the crate's pairs table occurs in the reference. -/
+def crateCoveredB (ref : List (Nat × Bool × Nat)) : Bool :=
+  Gen.pairsTable.all (fun p => ref.any (fun b => b.1 == p.1) && ref.any (fun b => b.1 == p.2.1))
+
+theorem C15_refCovered : refCoveredB Ref.brackets16 = true := by decide +kernel
+theorem C15_crateCovered : crateCoveredB Ref.brackets16 = true := by decide +kernel
+
+theorem bracket_of_ref (b : Nat × Bool × Nat) (hb : b ∈ Ref.brackets16) :
+    bracket b.1 = some { opening := b.2.2, isOpen := b.2.1 } ∧
+    Ref.brackets16.find? (fun x => x.1 == b.1) = some b := by
+  have h := C15_refCovered
+  simp only [refCoveredB, List.all_eq_true, Bool.and_eq_true, decide_eq_true_eq] at h
+  exact h b hb
+
+/-- equality with the frozen reference for EVERY code point (some on the 128, none elsewhere) -/
+theorem C15_ref (c : Nat) :
+    bracket c = ((Ref.brackets16.find? (fun b => b.1 == c)).map
+      (fun b => { opening := b.2.2, isOpen := b.2.1 })) := by
+  by_cases hc : ∃ b ∈ Ref.brackets16, b.1 = c
+  · obtain ⟨b, hb, rfl⟩ := hc
+    obtain ⟨h1, h2⟩ := bracket_of_ref b hb
+    rw [h1, h2, Option.map_some]
+  · have hnone : Ref.brackets16.find? (fun b => b.1 == c) = none := by
+      rw [List.find?_eq_none]
+      intro x hx hxc
+      exact hc ⟨x, hx, by simpa using hxc⟩
+    rw [hnone, Option.map_none]
+    apply C15_none
+    intro p hp
+    have h := C15_crateCovered
+    simp only [crateCoveredB, List.all_eq_true, Bool.and_eq_true, List.any_eq_true, beq_iff_eq] at h
+    obtain ⟨⟨b1, hb1, e1⟩, ⟨b2, hb2, e2⟩⟩ := h p hp
+    exact ⟨fun e => hc ⟨b1, hb1, e1.trans e⟩, fun e => hc ⟨b2, hb2, e2.trans e⟩⟩
+
+/-- both members of a pair share a key; different pairs have different keys, except
+    canonically equivalent pairs (which share the reference pair id) -/
+theorem C15_keys : ∀ b1 ∈ Ref.brackets16, ∀ b2 ∈ Ref.brackets16,
+    ((bracket b1.1).map (·.opening) = (bracket b2.1).map (·.opening)) ↔ b1.2.2 = b2.2.2 := by
+  intro b1 hb1 b2 hb2
+  rw [(bracket_of_ref b1 hb1).1, (bracket_of_ref b2 hb2).1]
+  simp only [Option.map_some, Option.some.injEq]
+
+theorem C15_canonical : (bracket 0x2329).map (·.opening) = (bracket 0x3008).map (·.opening) ∧
+    (bracket 0x232A).map (·.opening) = (bracket 0x3009).map (·.opening) := by decide +kernel
+
+/-- Bool checker: one pass over the (sorted) class table finds every bracket code point inside a
+    row of class ON. -/
+def allONB : Bool :=
+  Lemmas.C14.classesB Gen.classTable Gen.classTable
+    (Gen.pairsTable.flatMap (fun p => [(p.1, BidiClass.ON), (p.2.1, BidiClass.ON)]))
+
+theorem C15_allONB : allONB = true := by decide +kernel
+
+/-- every bracket character has Bidi_Class ON in the built-in class table -/
+theorem C15_all_ON : ∀ p ∈ Gen.pairsTable, bidiClass p.1 = .ON ∧ bidiClass p.2.1 = .ON := by
+  intro p hp
+  have h := Lemmas.C14.classesB_sound Gen.classTable
+    (Lemmas.C14.sorted_of_sortedB _ C14.C14_sorted) _ _ (fun _ hx => hx) C15_allONB
+  rw [C14.C14_bidiClass_eq_lookup, C14.C14_bidiClass_eq_lookup]
+  exact ⟨h (p.1, .ON) (List.mem_flatMap.2 ⟨p, hp, by simp⟩),
+    h (p.2.1, .ON) (List.mem_flatMap.2 ⟨p, hp, by simp⟩)⟩
 
 end UBidi.Props.C15
